@@ -217,10 +217,44 @@ def check_field_completeness(ctx, method: Func, cls: Class, call: ast.Call, targ
     """For a re-creating call: every stored ctor parameter must receive the instance's own value.
     Yields (param, ok, detail).  `value_params` are the parameters that carry the new value itself."""
     stored = stored_ctor_params(ctx, cls)
+    # `**self._settings()` / `**settings`: a dictionary of keyword arguments is written out where it can be read (a dict literal or
+    # dict(k=v) call, bound once in the method or returned by a private method of the same object); otherwise what it carries is unknown
+    unread = None
+    if any(k.arg is None for k in call.keywords):
+        import copy as _copy
+        defs0 = single_defs(method)
+        kws = []
+        for k in call.keywords:
+            if k.arg is not None:
+                kws.append(k)
+                continue
+            v = k.value
+            if isinstance(v, ast.Name) and v.id in defs0:
+                v = defs0[v.id]
+            if isinstance(v, ast.Call) and isinstance(v.func, ast.Attribute) and isinstance(v.func.value, ast.Name) and v.func.value.id == method.self_name \
+                    and not v.args and not v.keywords and method.cls is not None:
+                h = method.cls.lookup(v.func.attr)
+                from .astutil import returns as _returns
+                rs = _returns(h) if h is not None else []
+                if len(rs) == 1 and h.self_name == method.self_name:
+                    v = rs[0].value
+                    if isinstance(v, ast.Name):
+                        v = single_defs(h).get(v.id, v)
+            if isinstance(v, ast.Dict) and all(isinstance(x, ast.Constant) and isinstance(x.value, str) for x in v.keys):
+                kws += [ast.keyword(arg=x.value, value=y) for x, y in zip(v.keys, v.values)]
+            elif isinstance(v, ast.Call) and dotted(v.func) == "dict" and not v.args and all(x.arg is not None for x in v.keywords):
+                kws += list(v.keywords)
+            else:
+                unread = unparse(k.value)
+        call = _copy.copy(call)
+        call.keywords = kws
     binding, _ = bind_call(call, target_init_or_func, bound)
     defs = single_defs(method)
     for p, attr in sorted(stored.items()):
         if p in value_params:
+            continue
+        if p not in binding and unread is not None:
+            yield (p, None, "keyword arguments are handed over as **%s, which is not read" % unread)
             continue
         if p not in binding:
             if p in [a.arg for a in target_init_or_func.all_params]:
